@@ -500,8 +500,10 @@ func (w *inotify) handleEvent(inEvent *unix.InotifyEvent, buf *[65536]byte, offs
 		isDir := inEvent.Mask&unix.IN_ISDIR == unix.IN_ISDIR
 		/// New directory created: set up watch on it.
 		if isDir && ev.Has(Create) {
+			// ENOENT means the directory is gone again already (removed, or
+			// renamed once more before we got here): that's not an error.
 			err := w.register(ev.Name, watch.flags, true)
-			if err != nil {
+			if err != nil && !errors.Is(err, unix.ENOENT) {
 				w.mu.Unlock()
 				ok := w.sendError(err)
 				w.mu.Lock()
